@@ -447,7 +447,8 @@ theorem dispatch_lock (F : Frame inpS inpW δ) (hops : OpsSim env.ops inpS inpW 
     (heoi : eoi = false → ms.c.isLast = false)
     (hcl : ch = none → Closed inpS inpW δ ∧ eoi = true) (hbp : BrkParams inpW sd δ ms mw mw0 npw0) :
     LockOut env.tbl fs inpW δ K eoi (dispatch env inpS ch sd.arms ms) (dispatch env inpW ch sd.arms mw) ∨
-    BreakOut env.tbl fs env.ops inpS inpW δ d ms.x mw0 (dispatch env inpS ch sd.arms ms) := by
+    ((eoi = true → ¬ Closed inpS inpW δ) ∧
+      BreakOut env.tbl fs env.ops inpS inpW δ d ms.x mw0 (dispatch env inpS ch sd.arms ms)) := by
   by_cases hd0 : d = 0
   · subst hd0
     have h := runSeqArms_lock F hops ch eoi sd.arms (fun a ha => ha) cx hrel hK hsm hchin hil heoi hbp
